@@ -23,6 +23,9 @@ STRESS = [
     ("goto_fix", "unsigned char a,b,c; void main() { fix1: a++; if (a < b) goto fix1; for (X = 0; X < 2; X++) { forend1: c++; } }"),
     ("goto_fixlong", "unsigned char a,b,c; void main() { fix1: a++; if (a < b) { " + "c++; b--; " * 40 + "} if (c) goto fix1; }"),
     ("inl_goto", "unsigned char a,b,c; inline void q() { if (a) goto out; b++; out: c++; }\nvoid main() { q(); q(); }"),
+    ("cont_in_switch", "unsigned char a,b,c; void main() { do { switch (a) { case 1: continue; default: a++; } b--; } while (b); }"),
+    ("cont_in_switch_w", "unsigned char a,b,c; void main() { while (b) { switch (a) { case 1: b--; continue; default: a++; } b--; } for (c = 0; c < 3; c++) { switch (a) { case 0: continue; } a--; } }"),
+    ("assign_const_array", "const char arr[2] = {1, 2}; unsigned char a; void main() { arr = a; }"),
     ("inl_ret", "unsigned char a,b,c; inline char r(char x) { while (x) { if (x == b) return 3; x--; } return 0; }\nvoid main() { a = r(c); b = r(a) + 1; }"),
     ("do_cont", "unsigned char a,b,c; void main() { do { a--; if (a == b) continue; c++; } while (a); do { b--; } while (b); }"),
     ("inl3deep", "unsigned char a,b,c; inline char f1(char x) { if (x) return x; return 1; }\ninline char f2(char x) { return f1(x) + 1; }\ninline char f3(char x) { if (x < 9) return f2(x); return f2(b); }\nvoid main() { a = f3(a); c = f3(c); }"),
